@@ -17,6 +17,16 @@ pub fn link_mtu(v6: bool) -> BoxedStrategy<u16> {
     }
 }
 
+/// C14 quantifies over *all* link MTU settings: the option is a u16, so one case in five lies above the jumbo-frame
+/// size (loopback interfaces have 65536), up to the largest value the option accepts
+pub fn link_mtu_wide(v6: bool) -> BoxedStrategy<u16> {
+    prop_oneof![
+        8 => link_mtu(v6),
+        1 => 9000u16..=65535,
+        1 => prop::sample::select(vec![16384u16, 16412, 16413, 16432, 16433, 32767, 32768, 32815, 32816, 40000, 65507, 65535]),
+    ].boxed()
+}
+
 /// initial sequence numbers / connection ids: 25 % within 300 of the wrap
 pub fn rnd_stream() -> BoxedStrategy<Vec<u16>> {
     prop::collection::vec(prop_oneof![3 => any::<u16>(), 1 => (65236u32..65536).prop_map(|x| x as u16), 1 => 0u16..300], 3..6).boxed()
